@@ -368,7 +368,9 @@ impl Plugins {
                     return r;
                 }
                 let sender = shutdown.wait_for_pre_shutdown().await;
-                sender.send(()).unwrap();
+                // If the pre-shutdown phase is already over (the request was accepted before the
+                // shutdown, but handled after it), nobody waits for this acknowledgement.
+                let _ = sender.send(());
                 PluginResponse::ok_empty()
             }),
         );
